@@ -191,6 +191,29 @@ pub fn run(rep: &mut Report, thorough: bool) {
             let code = [0u8, 1, 255][d[2] as usize];
             eth(dmac, &MAC_CLI, ET_IP6, &nd_ns(&srcs6[d[4] as usize], dip, &tg[d[0] as usize], &opts[d[1] as usize], code))
         });
+        // well-formed ND options of every size class (1, 2, 3, 31, 32, 33, 63, 64, 65, 127, 128, 129,
+        // 255 units of 8 bytes: lengths around every power of two a narrow integer could overflow
+        // at), alone and behind a source link-layer address option
+        {
+            let units: [usize; 14] = [1, 2, 3, 4, 31, 32, 33, 63, 64, 65, 127, 128, 129, 255];
+            let types: [u8; 3] = [14, 253, 1];
+            let dims = [units.len() as u64, types.len() as u64, 2, 2];
+            sweep_frames(rep, cfg, &format!("ns-long-options-{}", tag), "neighbour solicitation with one option of 14 sizes (8 .. 2040 bytes) x 3 option types x {alone, behind a source link-layer option} x fill {00, a5}", crate::engine::product(&dims), |i| {
+                let d = crate::engine::unrank(i, &dims);
+                let n = units[d[0] as usize];
+                let mut o: Vec<u8> = if d[2] == 1 { slla(&MAC_CLI) } else { vec![] };
+                o.push(types[d[1] as usize]);
+                o.push(n as u8);
+                let fill = if d[3] == 1 { 0xa5u8 } else { 0 };
+                if types[d[1] as usize] == 1 {
+                    o.extend_from_slice(&MAC_CLI);
+                    o.extend(std::iter::repeat(fill).take(n * 8 - 8));
+                } else {
+                    o.extend(std::iter::repeat(fill).take(n * 8 - 2));
+                }
+                eth(&MAC_SRV, &MAC_CLI, ET_IP6, &nd_ns(&cli6(), &srv6(), &srv6(), &o, 0))
+            });
+        }
         if thorough {
             // every single byte of the NS target and every code for echo, wider id x seq grid
             sweep_frames(rep, cfg, &format!("echo-id-seq-grid-{}", tag), "id high byte x seq low byte x id low byte (256^3 / 64 grid) v4", 256 * 256 * 4, |i| {
